@@ -50,7 +50,7 @@ func (a *c15Responder) Receive(ctx *ReceiveContext) {
 
 var c15ScopeFuncs = []string{".(*PID).Ask", ".Ask", ".(*PID).SendSync", ".(*ReceiveContext).Response", ".(*ReceiveContext).build",
 	".getResponseChannel", ".putResponseChannel", ".drainAnyChannel", ".getContext", ".recycleContext", ".toReceiveContext",
-	".(*PID).doReceive", ".(*PID).runTurn", ".(*PID).finishOrReclaim", ".(*UnboundedMailbox)", ".(*dispatchState)", ".(*readyQueue).push"}
+	".(*PID).doReceive", ".(*PID).runTurn", ".(*PID).finishOrReclaim", ".(*UnboundedMailbox)", ".(*NonBlockingBoundedMailbox)", ".(*dispatchState)", ".(*readyQueue).push"}
 
 func c15Scope(file, fn string) bool {
 	if !strings.Contains(file, "/actor/") {
@@ -85,11 +85,19 @@ func c15Run(t *testing.T, sc c15Scenario, c *vsched.Chooser) (out vsched.Outcome
 		sys := vfNewSystem("c15")
 		ctx := context.Background()
 		rActor := &c15Responder{answer: true}
-		r, err := sys.Spawn(ctx, "r", rActor, WithLongLived())
+		mbox := func() []SpawnOption {
+			if sc.mode == "stale-nb" {
+				// a mailbox that recycles the handed-out context itself (recycleContext) instead of the
+				// default mailbox's sentinel recycling
+				return []SpawnOption{WithLongLived(), WithMailbox(NewNonBlockingBoundedMailbox(8))}
+			}
+			return []SpawnOption{WithLongLived()}
+		}
+		r, err := sys.Spawn(ctx, "r", rActor, mbox()...)
 		if err != nil {
 			panic(err)
 		}
-		q, err := sys.Spawn(ctx, "q", &c15Responder{answer: false}, WithLongLived())
+		q, err := sys.Spawn(ctx, "q", &c15Responder{answer: false}, mbox()...)
 		if err != nil {
 			panic(err)
 		}
@@ -159,7 +167,7 @@ func c15Run(t *testing.T, sc c15Scenario, c *vsched.Chooser) (out vsched.Outcome
 				_ = sys.NoSender().Tell(ctx, r, &c15Req{id: 90})
 				_ = sys.NoSender().Tell(ctx, r, &c15Req{id: 91})
 			})
-		} else if sc.mode == "stale" {
+		} else if sc.mode == "stale" || sc.mode == "stale-nb" {
 			// ask1 goes to the silent actor Q and will time out; the other client then makes Q dequeue
 			// another message (which lets the mailbox recycle ask1's context) and asks R with a long
 			// timeout: R's in-time reply must reach it even though ask1's timeout path runs late.
@@ -217,7 +225,7 @@ func c15Run(t *testing.T, sc c15Scenario, c *vsched.Chooser) (out vsched.Outcome
 				}
 			}
 		}
-		if !fired && sc.mode != "stale" && sc.api != "batchask" {
+		if !fired && sc.mode != "stale" && sc.mode != "stale-nb" && sc.api != "batchask" {
 			// no timer fired: the responder answered in time, so ask1 must have received its reply
 			for _, x := range res {
 				if x.who == "ask1" && x.err != nil {
@@ -274,7 +282,10 @@ func TestVerifC15(t *testing.T) {
 	vsched.Rep().Assumption("sequentially consistent interleavings at shimmed atomics and at channel statements of the Ask/Response path; timers fire only as explicit events or when nothing else can run; contextPoolSize=2 (overridden) so response channels and contexts are reused immediately")
 	var all []vsched.Scenario
 	for _, api := range []string{"pid", "pkg", "sendsync", "batchask"} {
-		for _, mode := range []string{"seq", "par", "stale", "tells"} {
+		for _, mode := range []string{"seq", "par", "stale", "tells", "stale-nb"} {
+			if mode == "stale-nb" && api != "pid" {
+				continue // the recycling mailbox variant is explored for one API (the Ask paths share the code)
+			}
 			if api == "batchask" && (mode == "stale" || mode == "tells") {
 				continue // BatchAsk is a loop over PID.Ask: the two cheap modes are enough on top of the pid scenarios
 			}
